@@ -317,6 +317,21 @@ def _kw_class(ty):
     return "num" if ty in ("int", "float") else ty
 
 
+def not_reading_is_open(c, toks):
+    """`not A cmp B` can be read as not (A cmp B) or as (not A) cmp B.  The documentation prints no precedence table, but it
+    types every keyword: when A is a non-boolean keyword (or a literal) the second reading applies a boolean connective
+    to a non-boolean value, which the language gives no meaning — only one well-typed reading is left and the
+    expression is judged.  It stays open (ambiguous, not judged) only when A is itself a boolean keyword."""
+    if c.kind not in ("cmp", "regex"):
+        return False
+    left = c.kids[0]
+    if left.kind == "kw":
+        return toks[left.tok].value[1] == "bool"
+    if left.kind == "lit":
+        return False
+    return True
+
+
 def _check(node, toks, truth, flags):
     """Type/"well-formedness" rules of the documented language.  Collects problems in flags."""
     k = node.kind
@@ -325,7 +340,7 @@ def _check(node, toks, truth, flags):
             _check(c, toks, True, flags)
     elif k == "not":
         c = node.kids[0]
-        if c.kind in ("cmp", "regex"):
+        if not_reading_is_open(c, toks):
             flags["ambiguous"] = True
         _check(c, toks, True, flags)
     elif k == "paren":
